@@ -156,6 +156,15 @@ def process_case(draw, kinds=KINDS, models=("NRTL", "UNIQUAC"), removal=(1e-6, 0
         "removal": draw(gen.loguniform(*removal)), "area": draw(gen.loguniform(1e-3, 1e3)), "amount": draw(gen.loguniform(1e-3, 1e3)),
         "program": draw(st.one_of(st.none(), program_spec())) if (programs and kind.endswith("noniso")) else None,
     }
+    if draw(st.integers(0, 9)) == 0:
+        # numeric TYPE class: integer-valued inputs given as Python ints (a 333 K feed, 2 m2, 12 kg)
+        case["T"] = int(round(case["T"]))
+        if case["perm"]["mode"] == "temperature":
+            case["perm"] = dict(case["perm"], T=min(case["perm"]["T"], case["T"]))
+        if case["area"] >= 1:
+            case["area"] = int(round(case["area"]))
+        if case["amount"] >= 1:
+            case["amount"] = int(round(case["amount"]))
     if kind.startswith("nonideal"):
         case["curves"] = draw(curve_set())
         case["orders"] = {"n1": draw(st.integers(0, 2)), "m1": draw(st.integers(0, 1)), "n2": draw(st.integers(0, 2)), "m2": draw(st.integers(0, 1))}
@@ -239,6 +248,7 @@ def run(case, s, dt, cond_spec=None, kind=None, steps=None):
     """Runs the process model of the case; returns ProcessModel | Raised."""
     kind = kind or case["kind"]
     cond = build.conditions(cond_spec or conditions_spec(case, s, dt))
+    preuse(cond.initial_feed_composition)
     n = steps or case["steps"]
     pv = s.pv
     if kind == "ideal-iso":
@@ -252,6 +262,17 @@ def run(case, s, dt, cond_spec=None, kind=None, steps=None):
     if kind == "nonideal-iso":
         return call(pv.non_ideal_isothermal_process, **kw)
     return call(pv.non_ideal_non_isothermal_process, **kw)
+
+
+def preuse(comp):
+    """Uses a Composition object with ANOTHER mixture before it is handed to the code under test (a no-op on correct code;
+    exposes conversion results memoised on the instance)."""
+    from pyvaporation import Mixtures
+
+    for other in (Mixtures.H2O_iPOH, Mixtures.MeOH_Toluene):
+        call(comp.to_weight, other)
+        call(comp.to_molar, other)
+    return comp
 
 
 def classes_of(case):
